@@ -1093,7 +1093,11 @@ func (w *aWorld) opView(op Op) {
 			}
 		}
 		if !found || (lookupMode && okL == 0) {
-			return // a channel nobody reports: not specified (the request must still not take nsqadmin down, see /ping)
+			// a channel nobody reports: the answer is not specified (nsqadmin answers
+			// 500 from a recovered nil dereference), but it must not take nsqadmin down (/ping after the step)
+			httpDo(rc, "GET", w.http, "/api/topics/"+url.PathEscape(t)+"/"+url.PathEscape(ch), nil, hdr, nil, 120*time.Second)
+			rc.Probe("unreported_channel_views")
+			return
 		}
 		resp := httpDo(rc, "GET", w.http, "/api/topics/"+url.PathEscape(t)+"/"+url.PathEscape(ch), nil, hdr, nil, 120*time.Second)
 		var v struct {
